@@ -32,6 +32,8 @@ func runExtras(l *loaded, run *PropRun, prop, tier string) {
 				frameParamObligations(l, run, k, []string{p}, "options")
 			}
 		}
+	case "C14":
+		gobObligations(l, run)
 	case "C10":
 		for _, k := range expanderEntries {
 			if p, ok := rootParams[k]; ok {
